@@ -141,3 +141,12 @@ Qed.
 
 Theorem gha_invalid_not_exists cur vs : normalize_parse cur = None -> GhaMatcher.version_exists cur vs = false.
 Proof. intro H. unfold GhaMatcher.version_exists. rewrite H. reflexivity. Qed.
+
+(* a ref the matcher accepts is version-like (so a ref that is not version-like is reported Invalid, by gha_compare_invalid) *)
+Lemma gha_accepts_ref_like s : normalize_parse s <> None -> ref_like s = true.
+Proof.
+  unfold normalize_parse, ref_like. change (strip_v s) with (strip_vV s). destruct (strip_vV s) as [|x t]; [congruence|].
+  destruct (split_once 45 (x :: t)) as [[b p]|].
+  - destruct (split_char 46 b) as [|a1 [|a2 [|a3 [|a4 r]]]]; congruence.
+  - destruct (split_char 46 (x :: t)) as [|a1 [|a2 [|a3 [|a4 r]]]]; congruence.
+Qed.
